@@ -50,23 +50,25 @@ def run(F, R, tier):
         r1.require(n > 0 or not tab.paths, (fn, "no-success"), "from_unix has no accepting path")
     # parse: every success value is the result of from_unix(parsed.unix_timestamp())
     fn = TS + "::parse"
-    h = F.hir(fn)
-    if r1.anchor(h, fn):
-        env = H.Env(h)
-        for n, oc in H.exits(h):
-            oo = H.origins(n, env)
-            r1.site("parse returns %s" % sorted(map(str, oo)), n.get("sp"))
-            r1.require(oo == {("call", TS + "::from_unix")}, (fn, "via-from_unix"), "parse has a success path that does not go through from_unix (range gate, UTC normalisation, whole seconds): %s" % sorted(map(str, oo)))
-        for c in H.calls(h, TS + "::from_unix"):
-            ao = H.origins(c["args"][0], env, accessors=re.compile(r"OffsetDateTime::unix_timestamp$"))
-            r1.require(ao == {("call", "time::offset_date_time::OffsetDateTime::parse", "unix_timestamp")}, (fn, "instant"), "parse does not hand from_unix the unix timestamp of the parsed date-time: %s" % sorted(map(str, ao)))
-        pc = H.calls(h, re.compile(r"OffsetDateTime::parse$"))
-        r1.require(len(pc) == 1 and H.origins(pc[0]["args"][0], env) == {("param", "input")}, (fn, "parses-input"), "parse does not parse its input with OffsetDateTime::parse")
-        if pc:
-            fmt = {H.variant_name(x.get("res", {})) for x in H.walk(pc[0]) if x.get("k") == "path"}
-            r1.require("Rfc3339" in fmt, (fn, "rfc3339"), "parse does not use the Rfc3339 format description")
-        # no panicking offset conversion
-        r1.require(not any(f.endswith("OffsetDateTime::to_offset") for f in H.called_fns(H.root(h))), (fn, "to_offset"), "parse uses the panicking OffsetDateTime::to_offset")
+    if r1.anchor(F.hir(fn), fn):
+        tab = SR.Table(F, fn, opaque=r"OffsetDateTime::parse$|Timestamp::from_unix$|OffsetDateTime::unix_timestamp$", rule=r1)
+        n = 0
+        for q in tab.paths:
+            if SR.is_failure(q.ret):
+                continue
+            n += 1
+            pc = [e for e in q.calls(r"OffsetDateTime::parse$") if q.succeeded(e) is True]
+            if not r1.require(len(pc) == 1 and SR.pure(pc[0].args[0], SR.param("input")), (fn, "parses-input"), "parse does not parse its input with OffsetDateTime::parse"):
+                continue
+            r1.require("Rfc3339" in sym.fmt(sym.term(pc[0].args[1])), (fn, "rfc3339"), "parse does not use the Rfc3339 format description")
+            parsed = ("payload", pc[0].result.t, "Ok", 0)
+            fu = [e for e in q.calls(r"Timestamp::from_unix$")]
+            good = len(fu) == 1 and sym.term(fu[0].args[0]) == ("call", "time::offset_date_time::OffsetDateTime::unix_timestamp", (parsed,))
+            r1.require(good, (fn, "instant"), "parse does not hand from_unix the unix timestamp of the parsed date-time: %s" % [sym.fmt(sym.term(e.args[0]))[:80] for e in fu])
+            r1.require(bool(fu) and (sym.term(q.ret) == fu[0].result.t or SR.derives(q.ret, fu[0].result.t)), (fn, "via-from_unix"),
+                       "parse has a success path that does not go through from_unix (range gate, UTC normalisation, whole seconds): %r" % (q.ret,))
+            r1.require(not q.calls(r"OffsetDateTime::to_offset$"), (fn, "to_offset"), "parse uses the panicking OffsetDateTime::to_offset")
+        r1.site("parse returns from_unix(unix_timestamp(OffsetDateTime::parse(input, Rfc3339)?)) on %d path(s)" % n)
     # with the `custom_time` feature now_utc delegates to the user's hook and constructs nothing itself
     r1.floor(3 if F.has_feature("identity_core", "custom_time") else 4)
 
@@ -77,21 +79,25 @@ def run(F, R, tier):
         h = F.hir(fn)
         if not r2.anchor(h, fn):
             continue
-        env = H.Env(h)
-        for n, oc in H.exits(h):
-            n2 = H.strip(n)
-            ok = n2.get("k") == "mcall" and n2["name"] == "and_then"
-            if ok:
-                rc = H.strip(n2["recv"])
-                ok = rc.get("k") == "mcall" and (H.fn_name(rc) or "").endswith("OffsetDateTime::" + op)
-                if ok:
-                    a = H.call_args(rc)
-                    ok = H.origins(a[0], env) == {("param", "self", "0")} and H.origins(a[1], env) == {("param", "duration", "0")}
-                cl = H.strip(n2["args"][0])
-                fns = H.called_fns(cl.get("body")) if cl.get("k") == "closure" else set()
-                ok = ok and TS + "::from_unix" in fns and "core::result::Result::ok" in fns and any(f.endswith("unix_timestamp") for f in fns)
-            r2.site("%s = self.0.%s(duration.0).and_then(|t| from_unix(t.unix_timestamp()).ok()): %s" % (name, op, ok), n.get("sp"))
-            r2.require(ok, (fn, "shape"), "%s does not route the time crate's %s result through from_unix (range gate)" % (name, op))
+        # by abstract evaluation: Some(x) only when the time crate's checked op succeeded on (self.0, duration.0) and
+        # from_unix(unix_timestamp(that result)) accepted it (the 0000–9999 range gate), and x is that from_unix value
+        tab = SR.Table(F, fn, opaque=r"OffsetDateTime::checked_(add|sub)$|Timestamp::from_unix$|OffsetDateTime::unix_timestamp$", rule=r2)
+        ok = bool(tab.paths)
+        n_some = 0
+        for q in tab.paths:
+            if isinstance(q.ret, sym.V) and q.ret.name == "Some":
+                n_some += 1
+                ops = [e for e in q.calls(r"OffsetDateTime::%s$" % op) if q.succeeded(e) is True]
+                good = len(ops) == 1 and sym.term(ops[0].args[0]) == SR.fld("0") and sym.term(ops[0].args[1]) == SR.fld("0", base=SR.param("duration"))
+                if good:
+                    res = ("payload", ops[0].result.t, "Some", 0)
+                    fu = [e for e in q.calls(r"Timestamp::from_unix$") if q.succeeded(e) is True and sym.term(e.args[0]) == ("call", "time::offset_date_time::OffsetDateTime::unix_timestamp", (res,))]
+                    good = len(fu) == 1 and sym.term(q.ret.fields[0]) == ("payload", fu[0].result.t, "Ok", 0)
+                ok = ok and good
+            elif not (isinstance(q.ret, sym.V) and q.ret.name == "None"):
+                ok = False
+        r2.site("%s = self.0.%s(duration.0) ✓ then from_unix(unix_timestamp(result)) ✓: %s (%d Some path(s))" % (name, op, ok, n_some))
+        r2.require(ok and n_some >= 1, (fn, "shape"), "%s does not route the time crate's %s result through from_unix (range gate)" % (name, op))
     eb = M.ExprBuilder(F, inline_depth=0)
     for unit in ("seconds", "minutes", "hours", "days", "weeks"):
         fn = DU + "::" + unit
